@@ -186,6 +186,20 @@ CHECKS = {
         note='Trusted: Coq kernel; extraction + OCaml; hashlib and base64 (oracles on both sides). DSS/ECDSA keys and certificates not in the '
              'specification yet.',
         technique='Coq proof (hashed pre-image = wire bytes); differential run with real digests'),
+    'C09': dict(
+        category='proof',
+        text='Coq theorems: for COTP connection request / confirm (modelled as a frame with a type check after the length check) and RDP '
+             'negotiation PDUs the message type on the wire is the type of the class that accepted it - no PDU is accepted both as request '
+             'and as confirm; MySQL packets (3-byte little-endian length), TPKT, OpenVPN-TCP and PostgreSQL SSLRequest satisfy the framing '
+             'lemma family (round trip, n = declared, self-delimiting, prefix rejection). Tie: TPKT, COTP, RDP negotiation, MySQL packet '
+             'and SSLRequest (4.1 and pre-4.1 layouts, all capability subsets), OpenVPN control packets with 0..255 acks and the TCP '
+             'wrapper, PostgreSQL SSLRequest composed by the implementation vs an independent Coq specification; COTP PDUs parsed by both '
+             'classes incl. the class of the returned object.',
+        design_ref='DESIGN.md section 6, C09',
+        note='Trusted: Coq kernel; gen_tables.py; extraction + OCaml; differential harness; the transcription of X.224 / MS-RDPBCGR / MySQL / '
+             'OpenVPN layouts. LDAP rests on asn1crypto (oracle; sweeps only); MySQLHandshakeV10 not yet specified. Known finding: COTP '
+             'reference order (pinned by a test).',
+        technique='Coq proof (wire type preserved; framing lemma family) + implementation-vs-specification differential run'),
 }
 
 NOT_YET = {}
